@@ -686,7 +686,7 @@ pub fn stress_shapes(thorough: bool) -> Vec<(String, Vec<u8>)> {
         v.push((name.into(), b));
     }
     // table amplification: cels at a high layer index in many frames, layers declared or not
-    for (declare, nl, nf) in [(false, 65535usize, 64usize), (true, 2000, 400), (true, if thorough { 6000 } else { 3000 }, if thorough { 6000 } else { 3000 })] {
+    for (declare, nl, nf) in [(false, 65535usize, 64usize), (true, 2000, 400), (true, if thorough { 8000 } else { 5500 }, if thorough { 8000 } else { 5500 })] {
         let mut b = header_bytes(nf as u16, 1, 1, 32);
         for f in 0..nf {
             let mut chunks = vec![];
@@ -791,7 +791,22 @@ pub fn judge(focus: Focus, bytes: &[u8], v: &Verdict, ops: &[String], wellformed
         o.labels.push(format!("op:{}", k));
     }
     match v {
-        Verdict::Timeout => {
+        Verdict::Timeout { cpu_ms, loaded } => {
+            // A wall-clock budget alone is never a violation. Only when the worker burned >= 20 s of CPU
+            // time (not wall time: robust against machine load) on a small input that is not one of the
+            // deliberately heavy stress shapes do we call it "fails to return" (C04's own wording).
+            let heavy = ops.iter().any(|o| o.starts_with("shape:"));
+            if *cpu_ms >= 20_000 && !heavy && bytes.len() <= (1 << 20) {
+                let stage = if *loaded { "while calling accessors after a successful load" } else { "inside AsepriteFile::read" };
+                match focus {
+                    Focus::C04 if *loaded => {}
+                    Focus::C05 if !*loaded => {}
+                    Focus::C04 | Focus::C05 => {
+                        return Err(Failure::new("no-return", format!("worker consumed {} ms of CPU on a {}-byte input without returning ({}); inputs of this size normally take < 10 ms", cpu_ms, bytes.len(), stage)).with(detail()));
+                    }
+                    Focus::C12 => {}
+                }
+            }
             o.labels.push("watchdog-timeout".into());
             o.counters.push(("timeouts", 1));
             return Ok(o);
@@ -1102,7 +1117,7 @@ pub fn campaign(run: &mut Run, focus: Focus) {
             let mut r = judge(focus, b, &v, &ops, false);
             if let Ok(o) = &mut r {
                 // stress shapes are deliberately unusual inputs
-                if !matches!(v, Verdict::Timeout) {
+                if !matches!(v, Verdict::Timeout { .. }) {
                     o.nontrivial = true;
                 }
             }
